@@ -39,6 +39,9 @@ def rows_for_minute(case):
     for rm in case["refs"]:
         t = ts.replace(hour=rm // 60, minute=rm % 60)
         rows.append(common.call_post(t, T.Time(hour=h, minute=mi)))
+        # the reference time is rarely on a full minute: "the same minute" must not depend on its seconds
+        for sec, us in ((59, 999999), (0, 1), (30, 0)):
+            rows.append(common.call_post(t.replace(second=sec, microsecond=us), T.Time(hour=h, minute=mi)))
         if mi == 0:
             rows.append(common.call_post(t, T.Time(hour=h)))
     return rows
@@ -93,6 +96,9 @@ def run(ctx):
                         if ctx.quick and lab != "clock:H:MM" and rm not in (hm, 1439):
                             continue
                         cases.append({"text": text, "C": C, "ts": base + (rm // 60, rm % 60), "latent": 1, "label": lab, "form": lab})
+                        if lab == "clock:H:MM" and rm in (hm, (hm + 1) % 1440):
+                            cases.append({"text": text, "C": C, "ts": base + (rm // 60, rm % 60, 47, 123456), "latent": 1,
+                                          "label": lab, "form": lab + " (sub-minute reference)"})
     core.run_stage(ctx, "e2e-latent", cases, e2e.obs_clock, "DenoteTrace")
 
 
